@@ -41,6 +41,11 @@ theorem plan_swap (v : Variant) (p N C : Nat) (lab : Option Str) (ts : List Nat)
   have hne' : ts.isEmpty = false := by cases ts <;> simp_all
   simp only [plan, planGate, if_neg h1, hne', if_true, Bool.false_eq_true, if_false]
 
+theorem plan_measNS (v : Variant) (hv : v.measBox = true) (p N C t0 : Nat) :
+    plan v p N C (.measNS [t0]) = .ok
+      { wl := [t0], width := (drawSingleq p ['M']).top.length, acts := updSingleq [t0] (drawSingleq p ['M']) } := by
+  simp [plan, hv]
+
 theorem plan_meas (v : Variant) (p N C t0 s : Nat) :
     plan v p N C (.meas [t0] s) = .ok
       { wl := pyRange 0 (t0 + 1) ++ pyRange (s + N) (N + C), width := (drawMeas p N t0 s).top.length,
@@ -86,9 +91,24 @@ def Op.isGlob : Op → Bool
   | .glob _ _ => true
   | _ => false
 
+/-- does the tree draw this kind of element at all: gates on the whole register need the repair
+`globalBox`, measurements without `classical_store` the repair `measBox` -/
+def Variant.supports (v : Variant) : Op → Bool
+  | .glob _ _ => v.globalBox
+  | .measNS _ => v.measBox
+  | _ => true
+
+theorem supports_repaired (op : Op) : Variant.repaired.supports op = true := by cases op <;> rfl
+
 theorem opOk_of_valid {v : Variant} (hv : v.spanFix = true) {N C : Nat} {op : Op}
-    (hg : op.isGlob = true → v.globalBox = true) (h : opValid N C op = true) (hN : 1 ≤ N) : opOk v N op = true := by
+    (hg : v.supports op = true) (h : opValid N C op = true) (hN : 1 ≤ N) : opOk v N op = true := by
   cases op with
+  | measNS targets =>
+    match targets, h with
+    | [t0], h =>
+      have hm : v.measBox = true := hg
+      simp only [opValid, decide_eq_true_eq] at h
+      simp [opOk, h, hm]
   | meas targets store =>
     match targets, h with
     | [t0], h =>
@@ -99,7 +119,7 @@ theorem opOk_of_valid {v : Variant} (hv : v.spanFix = true) {N C : Nat} {op : Op
     simp only [opOk, gateOk, Bool.and_eq_true, Bool.or_eq_true]
     exact ⟨h.1, Or.inl (Or.inr hv)⟩
   | glob name argLabel =>
-    have hgb := hg rfl
+    have hgb : v.globalBox = true := hg
     simp only [opOk, gateOk, hgb, Bool.true_and, Bool.and_eq_true, Bool.or_eq_true]
     refine ⟨⟨?_, ?_⟩, Or.inl (Or.inr hv)⟩
     · cases N with
@@ -108,7 +128,7 @@ theorem opOk_of_valid {v : Variant} (hv : v.spanFix = true) {N C : Nat} {op : Op
     · simp [ctrlList]
 
 theorem circOk_of_valid {v : Variant} (hv : v.spanFix = true) {sty : Style} {c : Circ}
-    (hg : ∀ op ∈ c.ops, op.isGlob = true → v.globalBox = true) (h : circValid sty c = true) :
+    (hg : ∀ op ∈ c.ops, v.supports op = true) (h : circValid sty c = true) :
     circOk v sty c = true := by
   simp only [circValid, circOk, Bool.and_eq_true, List.all_eq_true] at h ⊢
   exact ⟨h.1, fun op hop => opOk_of_valid hv (hg op hop) (h.2 op hop) (styleOk_N h.1)⟩
